@@ -113,7 +113,7 @@ package hessian
 //@   requires e.refMap != nil
 //@   assigns mapof(e.refMap)
 //@   loop 1 invariant [C04:ref-walk] true
-//@   let rkey = mkrefkey(addr, typ)
+//@   let rkey = mkrefkey(addr, typ, size)
 //@   let had  = old(maphas(e.refMap, rkey))
 //@   proves [C04:ref-found]     result1 == had && (had ==> result0 == old(mapget(e.refMap, rkey)))
 //@   proves [C04:ref-register]  !had ==> mapsize(e.refMap) == old(mapsize(e.refMap)) + 1 && maphas(e.refMap, rkey) && mapget(e.refMap, rkey) == old(mapsize(e.refMap))
